@@ -311,19 +311,14 @@ func (p *Provider) Close() error {
 
 // Use plugin handlers.
 func (p *Provider) Use(handler ...core.PluginHandler) *Provider {
-	invokeHandlers, _ := core.SeparatePluginHandlers(handler)
-	if len(invokeHandlers) > 0 {
-		p.invokeManager.Use(invokeHandlers...)
-	}
+	core.UsePlugins(p.invokeManager, nil, handler...)
 	return p
 }
 
 // Unuse plugin handlers.
 func (p *Provider) Unuse(handler ...core.PluginHandler) *Provider {
-	invokeHandlers, _ := core.SeparatePluginHandlers(handler)
-	if len(invokeHandlers) > 0 {
-		p.invokeManager.Unuse(invokeHandlers...)
-	}
+	// by the object, not by the code address its handlers share with every other plugin object
+	core.UnusePlugins(p.invokeManager, nil, handler...)
 	return p
 }
 
